@@ -54,6 +54,10 @@ func (t *T0x0102) Parse(jtMsg *jt808.JTMessage) error {
 		}
 		t.SoftwareVersion = string(data)
 	} else {
+		// 2011/2013版本只有鉴权码 复用同一个对象解析时不能保留上一次2019消息的字段
+		t.AuthCodeLen = 0
+		t.TerminalIMEI = ""
+		t.SoftwareVersion = ""
 		t.AuthCode = string(body)
 	}
 	return nil
